@@ -218,6 +218,25 @@ pub fn run(ctx: &mut Ctx) {
                         ctx.fail("eof-inside-character-accepted", format!("{} doc#{di}: input ends inside the character at byte {i}: items {items:?}", ENTRY[entry]),
                             json!({"kind": "eof_in_char", "doc": doc, "at": i + cutoff, "entry": entry}));
                     }
+                    // the same input behind a UTF-8 byte order mark (F84, fixed: it went through a lossy transcoding), and
+                    // with the character replaced by an invalid byte
+                    ctx.direct_evaluations += 2;
+                    let mut with_bom = vec![0xEF, 0xBB, 0xBF];
+                    with_bom.extend_from_slice(&bytes[..i + cutoff]);
+                    let (items, _) = run_entry(entry, 0, vec![Step::Chunk(with_bom.clone()), Step::Eof], false, opts(None));
+                    if items.last().map(|l| l == "Ok").unwrap_or(true) {
+                        ctx.fail("eof-inside-character-accepted", format!("{} doc#{di}: input with a BOM ends inside the character at byte {i}: items {items:?}", ENTRY[entry]),
+                            json!({"kind": "eof_in_char_bom", "doc": doc, "at": i + cutoff, "entry": entry}));
+                    }
+                    let mut invalid = vec![0xEF, 0xBB, 0xBF];
+                    invalid.extend_from_slice(&bytes[..i]);
+                    invalid.push(0xFF);
+                    invalid.extend_from_slice(&bytes[i + doc[i..].chars().next().unwrap().len_utf8()..]);
+                    let (items, _) = run_entry(entry, 0, vec![Step::Chunk(invalid), Step::Eof], false, opts(None));
+                    if items.last().map(|l| l == "Ok").unwrap_or(true) && !items.iter().any(|l| l != "Ok") {
+                        ctx.fail("invalid-utf8-accepted", format!("{} doc#{di}: input with a BOM and the byte 0xFF at {i} is accepted: items {items:?}", ENTRY[entry]),
+                            json!({"kind": "invalid_utf8_bom", "doc": doc, "at": i, "entry": entry}));
+                    }
                 }
             }
         }
